@@ -138,7 +138,8 @@ inductive Op where
   | nodeLocked (node : String)                          -- SetNode, RemoveNode, NodeResource(fix)
   | remove (ids : List String)                          -- RemoveWorkload; also DissociateWorkload
   | realloc (id : String)
-  | workloadEach (ids : List String) (ignoreLock : Bool) -- control, send, send-large, replace, raw engine
+  | workloadEach (ids : List String) (ignoreLock : Bool) -- control, send, send-large, raw engine
+  | replace (ids : List String)                         -- ReplaceWorkload: one workload lock each; remap goroutine on success
   | remap (node : String)
   | nodesPod (nf : NodeFilter)                          -- raw helpers (hook)
   | nodesOp (nf : NodeFilter)
@@ -164,6 +165,12 @@ def episodes (w : World) : Op → List Trace
     | some [c] => [withNodePodLocked w c.2 (withWorkloadLocked w id false), withNodeOperationLocked w c.2 []]
     | _ => []
   | .workloadEach ids ignoreLock => ids.map fun id => withWorkloadLocked w id ignoreLock
+  | .replace ids =>
+    ids.flatMap fun id =>
+      [withWorkloadLocked w id false,
+       match w.workloads.find? (·.1 == id) with
+       | some c => withNodeOperationLocked w c.2 []
+       | none => []]
   | .remap node => [withNodeOperationLocked w node []]
   | .nodesPod nf => [withNodesPodLocked w nf fun _ => []]
   | .nodesOp nf => [withNodesOperationLocked w nf fun _ => []]
